@@ -52,6 +52,62 @@ def native(module, payload, timeout=600):
     return json.loads(p.stdout)
 
 
+class ObRec(object):
+    """Picklable obligation record (SMT text instead of z3 objects)."""
+
+    def __init__(self, ob):
+        self.id = ob.id
+        self.label = ob.label
+        self.kind = ob.kind
+        self.where = ob.where
+        self.path = ob.path
+        self.goal = str(ob.goal)[:600]
+        self.assumptions = [None] * len(ob.assumptions)
+        self.trivial = ob.trivially_true() if ob.kind != 'canary' else False
+        self.text = None if self.trivial else ob.smt2()
+        self._slices = None if (self.trivial or ob.kind == 'canary') \
+            else ob.slices()
+        self.result = None
+
+    def slices(self):
+        return self._slices or [('full', self.text)]
+
+    def smt2(self):
+        return self.text
+
+    def trivially_true(self):
+        return self.trivial
+
+
+def _verify_job(job):
+    """Child-process worker: build an engine, verify one function variant,
+    return picklable records."""
+    build, name, tag = job
+    import traceback
+    try:
+        eng = build(tag)
+        v = eng.verify(name)
+        recs = []
+        for ob in v.obligations:
+            r = ObRec(ob)
+            if tag is not None:
+                r.id = '%s[%s]' % (r.id, tag)
+            recs.append(r)
+        return {'name': name, 'tag': tag, 'fi': v.fi.describe(),
+                'undecided': v.undecided, 'paths': v.paths,
+                'exit_kinds': v.exit_kinds, 'obligations': recs,
+                'time_s': v.time_s, 'error': None}
+    except KeyError as e:
+        return {'name': name, 'tag': tag, 'error': None, 'fi': None,
+                'undecided': ['function not found in the working tree '
+                              '(%s)' % e], 'obligations': [], 'paths': 0,
+                'exit_kinds': {}, 'time_s': 0}
+    except Exception:
+        return {'name': name, 'tag': tag, 'fi': None, 'undecided': [],
+                'obligations': [], 'paths': 0, 'exit_kinds': {}, 'time_s': 0,
+                'error': traceback.format_exc()[-1500:]}
+
+
 class Check(object):
     def __init__(self, pid, argv=None):
         self.pid = pid
@@ -136,6 +192,64 @@ class Check(object):
                 self.backends[o.result.solver] = self.backends.get(
                     o.result.solver, 0) + 1
         return verdicts
+
+    def verify_parallel(self, build, jobs, timeout_s=30, solver_jobs=12,
+                        solvers=('z3', 'cvc5'), procs=10):
+        """jobs: list of (function name, variant tag).  `build(tag)` must
+        return an Engine with the contracts registered (top-level function,
+        picklable).  Symbolic execution runs in child processes."""
+        import multiprocessing as mp
+        ctxm = mp.get_context('fork')
+        with ctxm.Pool(min(procs, len(jobs))) as pool:
+            outs = pool.map(_verify_job, [(build, n, t) for n, t in jobs])
+        allobs = []
+        uniq = set()
+        seen_fi = set()
+        for o in outs:
+            nm = o['name'] + ('[%s]' % o['tag'] if o['tag'] is not None
+                              else '')
+            if o['error']:
+                self.errors.append('%s: engine error %s' % (nm, o['error']))
+                continue
+            if o['fi'] and o['fi']['name'] not in seen_fi:
+                seen_fi.add(o['fi']['name'])
+                self.functions.append(o['fi'])
+            for u in o['undecided']:
+                self.undecided.append('%s: %s' % (nm, u))
+            can = [r for r in o['obligations'] if r.kind == 'canary']
+            real = [r for r in o['obligations'] if r.kind != 'canary']
+            if not o['undecided']:
+                if not can:
+                    self.errors.append('%s: no path reaches an exit' % nm)
+                if not real:
+                    self.errors.append('%s: zero obligations generated' % nm)
+            for r in o['obligations']:
+                if r.kind != 'canary':
+                    key = (r.label, r.text and smt.sha(r.text), o['tag'])
+                    if key in uniq:
+                        continue
+                    uniq.add(key)
+                allobs.append(r)
+        real = [r for r in allobs if r.kind != 'canary']
+        verify.discharge(real, timeout_s=timeout_s, jobs=solver_jobs,
+                         solvers=solvers)
+        sat, vac = verify.check_canaries(allobs, jobs=solver_jobs)
+        self.canaries_sat += sat
+        byfn = {}
+        for r in allobs:
+            if r.kind == 'canary':
+                byfn.setdefault(r.id.split('#')[0], []).append(r)
+        for fn, can in byfn.items():
+            if all(c.result.status == smt.UNSAT for c in can):
+                self.errors.append('%s: every exit path is contradictory '
+                                   '(vacuous requires)' % fn)
+        self.obligations.extend(real)
+        for o in real:
+            if o.result is not None:
+                self.solver_time += o.result.time_s
+                self.backends[o.result.solver] = self.backends.get(
+                    o.result.solver, 0) + 1
+        return outs
 
     def add_smt_obligation(self, oid, assertions_unsat, timeout_s=30,
                            solvers=('z3', 'cvc5'), describe=''):
